@@ -84,6 +84,9 @@ def tonnx_case():
       st.integers(1, 3), st.lists(st.sampled_from(['counters', 'batch_stats',
                                                    'cache']), max_size=2,
                                   unique=True),
+      st.booleans(),
+      # rngs handed over at call time (fresh nnx.Rngs per call) instead of
+      # the streams the wrapper was constructed with
       st.booleans())
 
 
@@ -92,13 +95,15 @@ def tonnx_case():
         rule='generated Linen programs (Dense/param/counter/running-stat/rng '
         'draws, nested) wrapped with bridge.ToNNX, optionally nested inside an '
         'NNX parent, lazily initialised and called 1-3 times with a mutable '
-        'filter: after lazy_init every collection is stored under the NNX '
+        'filter, drawing from the wrapper\'s own streams or from fresh '
+        'nnx.Rngs passed at call time: after lazy_init every collection is stored under the NNX '
         'Variable type registered for its name with the values of an '
         'independent Linen init; every call returns what Linen apply returns '
         'on the variables currently held, and mutable updates persist into '
         'the next call; non-trivial = program has state and >=2 calls')
 def to_nnx(case, ctx):
-  case, ncalls, mutable, nested = case
+  case, ncalls, mutable, nested, *rest = case
+  call_time_rngs = bool(rest and rest[0])
   case = L.normalize_case(dict(case, shared=[]))
   case = dict(case, prog=unique_names(case['prog']))
   # rng ops need explicit streams
@@ -141,6 +146,12 @@ def to_nnx(case, ctx):
   for i in range(ncalls):
     call_rngs = {'params': k(seed, i + 1), 'dropout': k(seed + 1, i + 1),
                  'noise': k(seed + 2, i + 1)}
+    kw = {}
+    if call_time_rngs:
+      s2 = seed + 1000 * (i + 1)
+      kw['rngs'] = nnx.Rngs(params=s2, dropout=s2 + 1, noise=s2 + 2)
+      call_rngs = {'params': k(s2, 0), 'dropout': k(s2 + 1, 0),
+                   'noise': k(s2 + 2, 0)}
     with sut('linen apply'):
       if mutable:
         y_ref, upd = mod.apply(V, x, rngs=call_rngs, mutable=mutable)
@@ -150,9 +161,11 @@ def to_nnx(case, ctx):
         y_ref = mod.apply(V, x, rngs=call_rngs)
     with sut('wrapper call'):
       target = holder if nested else w
-      y = target(x, mutable=mutable) if mutable else target(x)
+      y = target(x, mutable=mutable, **kw) if mutable else target(x, **kw)
     require(close(y, y_ref * 2.0 if nested else y_ref), lambda: f'call {i}: '
-            'wrapper output differs from Linen apply on the held variables')
+            'wrapper output differs from Linen apply on the held variables'
+            + (' with the keys of the rngs passed at call time'
+               if call_time_rngs else ''))
     got = wrapper_state(w)
     for col in V:
       if not L.flat(V[col]):
@@ -162,8 +175,11 @@ def to_nnx(case, ctx):
               lambda: f'call {i}: wrapper state of {col} differs from the '
               'Linen reference after mutable updates')
   stateful = L.uses(case['prog'], ('counter', 'stat'))
+  draws = L.uses(case['prog'], ('rng',))
   ctx.note(labels=['nested' if nested else 'flat', f'calls{ncalls}',
-                   'mutable' if mutable else 'immutable'],
+                   'mutable' if mutable else 'immutable',
+                   'call-rngs' if call_time_rngs else 'wrapper-rngs',
+                   'draws' if draws else 'nodraws'],
            nontrivial=stateful and ncalls >= 2 and bool(mutable))
 
 
